@@ -1234,6 +1234,7 @@ impl Monitor for M {
             ("corpus-pl:held", 60),
             ("gen:held", if q { 6_000 } else { 150_000 }),
             ("repack:held", if q { 3_500 } else { 75_000 }),
+            ("repack:recipes-shared", if q { 40 } else { 1_000 }),
             ("own_reader_compared", if q { 10_000 } else { 250_000 }),
             ("b0_not_canonical(normalisation_changed_bytes)", if q { 3_000 } else { 60_000 }),
             ("fonts_with_ligkern_replacements", if q { 4_000 } else { 100_000 }),
